@@ -881,6 +881,11 @@ func runFrame(fr *frame) {
 		if !fr.i.panicSiteSet {
 			fr.i.panicSiteSet = true
 			fr.i.panicSite = fr.pos()
+			if os.Getenv("VERIF_STACK") != "" {
+				for f := fr; f != nil; f = f.caller {
+					fmt.Fprintf(os.Stderr, "  stack: %s\n", f.pos())
+				}
+			}
 		}
 		fr.panicking = true
 		fr.panic = p
